@@ -5,7 +5,7 @@
    nd state-driver calls on slot 1, one target operation, two observers.  IllShare percent of the calls
    are ill-formed on purpose. *)
 EXTENDS Integers, Sequences, TLC, Json, FiniteSets, SequencesExt
-CONSTANTS MaxLen, Slots, MaxDim, OpSet, IllShare, CoefMax, Recipe
+CONSTANTS MaxLen, Slots, MaxDim, OpSet, IllShare, CoefMax, Recipe, Shape   \* Shape: unused here (shared configuration with PolyHist)
 Coef == (-CoefMax)..CoefMax
 RE(S) == RandomElement(S)
 Mat(s) == SubSeq(s, 1, Len(s))
@@ -21,7 +21,7 @@ D0 == [op |-> "", dst |-> 1, src |-> 0, n |-> 0, topo |-> "G", k |-> "x", var |-
        v |-> <<>>, w |-> <<>>, vs |-> <<>>, cs |-> <<>>, gs |-> <<>>]
 Init == /\ prog = <<>> /\ dim = [s \in Slots |-> -1]
         /\ anchor = [s \in Slots |-> [i \in 1..MaxDim |-> RE(-1..1)]]
-        /\ phase = "op" /\ cur = "none" /\ focus = 1 /\ nd \in {RE(0..3)} /\ rk \in {RE({"op", "op", "twin"})}
+        /\ phase = "op" /\ cur = "none" /\ focus = 1 /\ nd \in {RE(0..3)} /\ rk \in {IF "chain" \in OpSet THEN "chain" ELSE RE({"op", "op", "twin"})}
 Alive(s) == dim[s] >= 0
 AliveS == {s \in Slots : Alive(s)}
 \* congruence (mod md, md = 0: equality) over n dimensions that the integer anchor a satisfies:  t.x - t.a + md*j = 0 (mod md)
@@ -51,7 +51,10 @@ CgsOps == {"add_congruences", "refine_with_congruences"}
 ConOps == {"add_constraint", "refine_with_constraint", "relation_with_constraint"}
 GGOps == {"add_grid_generator", "relation_with_grid_generator"}
 GGsOps == {"add_grid_generators"}
-BinMut == {"intersection", "upper_bound", "upper_bound_if_exact", "difference", "time_elapse", "congruence_widening", "generator_widening"}
+BinMut == {"intersection", "upper_bound", "upper_bound_if_exact", "difference", "time_elapse"}
+\* widenings (C08): argument slot, optional token counter (mod = 1: a pointer is passed, den = tokens), limiting congruences
+GLimOps == {"limited_congruence", "limited_generator", "limited_extrapolation"}
+WidOps == {"congruence_widening", "generator_widening", "widening"} \cup GLimOps
 PoolOps == {"copy_from", "assign", "swap", "rebuild", "dumpload", "destroy"}
 UnMut == {"topological_closure"}
 ImgOps == {"affine_image", "affine_preimage", "gen_affine_image", "gen_affine_preimage"}
@@ -59,15 +62,22 @@ DimUp == {"add_dims_embed", "add_dims_project", "expand", "concatenate"}
 DimDown == {"remove_dims", "remove_higher", "fold"}
 DimOther == {"unconstrain", "unconstrain_set", "map_dims"}
 AllOps == CtorOps \cup UnObs \cup VarObs \cup ExprObs \cup BinObs \cup CgOps \cup CgsOps \cup ConOps \cup GGOps \cup GGsOps
-          \cup BinMut \cup PoolOps \cup UnMut \cup ImgOps \cup DimUp \cup DimDown \cup DimOther
+          \cup BinMut \cup WidOps \cup PoolOps \cup UnMut \cup ImgOps \cup DimUp \cup DimDown \cup DimOther
 DriverOps == {"min_congruences", "min_grid_generators", "congruences", "grid_generators", "add_grid_generator", "add_congruence", "is_empty", "contains", "equals"}
 \* recipe "twin" (equal sets through different histories): ctor, ctor, nd drivers on slot 1, slot 2 := rebuild of slot 1 (one of four ways of
 \* reconstructing the same grid), the congruences of both are minimized, then the binary observers must treat the two as the same set
-RecipeLen == IF rk = "op" THEN 5 + nd ELSE 7 + nd
+\* recipe "chain" (C08, selected by the pseudo-operation "chain" in OpSet): ctor on slot 1, then 2 + nd times
+\* [slot 2 := copy of slot 1; grow slot 1 by a generator / an image; widen slot 1 with slot 2]
+RecipeLen == IF rk = "op" THEN 5 + nd ELSE IF rk = "chain" THEN 1 + 3 * (2 + nd) ELSE 7 + nd
+GrowOps == {"add_grid_generator", "add_grid_generator", "add_grid_generators", "affine_image", "unconstrain"} \cap OpSet
 Twin2 == Recipe /\ rk = "twin" /\ Len(prog) = 3 + nd
 RecipeTargets == (AllOps \cap OpSet) \ (CtorOps \cup PoolOps)
 RecipeOp == LET L == Len(prog) IN
-            IF L = 0 THEN RE({"from_cgs", "from_ggs"})
+            IF rk = "chain" THEN (IF L = 0 THEN RE({"from_cgs", "from_ggs", "from_ggs"})
+                                  ELSE IF (L - 1) % 3 = 0 THEN "copy_from"
+                                  ELSE IF (L - 1) % 3 = 1 THEN RE(IF GrowOps = {} THEN {"add_grid_generator"} ELSE GrowOps)
+                                  ELSE RE(WidOps \cap OpSet))
+            ELSE IF L = 0 THEN RE({"from_cgs", "from_ggs"})
             ELSE IF L = 1 THEN RE({"from_cgs", "from_ggs", "new"})
             ELSE IF L < 2 + nd THEN RE(DriverOps)
             ELSE IF rk = "op" THEN (IF L = 2 + nd THEN RE(RecipeTargets) ELSE IF L = 3 + nd THEN "min_congruences" ELSE "min_grid_generators")
@@ -81,7 +91,7 @@ ChooseOp == /\ phase = "op" /\ Len(prog) < (IF Recipe THEN RecipeLen ELSE MaxLen
             /\ phase' = "args" /\ UNCHANGED <<prog, dim, anchor, focus, nd, rk>>
 Args ==
   /\ phase = "args" /\ phase' = "op" /\ cur' = "none" /\ UNCHANGED <<nd, rk>>
-  /\ \E s0 \in {IF Recipe THEN (IF Len(prog) = 1 \/ Twin2 THEN 2 ELSE 1) ELSE IF AliveS = {} THEN focus ELSE IF Alive(focus) /\ RE(1..3) <= 2 THEN focus ELSE RE(AliveS)} : focus' = s0 /\
+  /\ \E s0 \in {IF Recipe THEN (IF (Len(prog) = 1 /\ rk # "chain") \/ Twin2 THEN 2 ELSE 1) ELSE IF AliveS = {} THEN focus ELSE IF Alive(focus) /\ RE(1..3) <= 2 THEN focus ELSE RE(AliveS)} : focus' = s0 /\
      \E ill \in {IF Recipe /\ Len(prog) # 2 + nd THEN FALSE ELSE Ill(Len(prog))} :
      \/ /\ cur \in CtorOps
         /\ \E s \in {IF Recipe \/ RE(1..2) = 1 THEN s0 ELSE RE(Slots)} :
@@ -100,6 +110,11 @@ Args ==
      \/ /\ cur \in BinObs \cup BinMut
         /\ \E s \in {s0} : \E t \in {LET c == {t \in AliveS : dim[t] = dim[s]} IN IF Recipe /\ Alive(3 - s) THEN 3 - s ELSE IF ill \/ c = {} THEN RE(AliveS) ELSE RE(c)} :
              Emit([D0 EXCEPT !.op = cur, !.dst = s, !.src = t, !.n = dim[s], !.var = RE(0..1)]) /\ Keep
+     \/ /\ cur \in WidOps
+        /\ \E s \in {s0} : \E t \in {LET c == {t \in AliveS : dim[t] = dim[s]} IN IF Recipe /\ Alive(3 - s) THEN 3 - s ELSE IF ill \/ c = {} THEN RE(AliveS) ELSE RE(c)} :
+           \E cnt \in {IF cur \in GLimOps THEN RE(0..2) ELSE 0} :
+             Emit([D0 EXCEPT !.op = cur, !.dst = s, !.src = t, !.n = dim[s], !.var = RE(0..3), !.mod = RE({0, 0, 1}), !.den = RE(0..2),
+                              !.cs = RandSeq(cnt, LAMBDA i : CgFor(s, dim[s]))]) /\ Keep
      \/ /\ cur \in CgOps
         /\ \E s \in {s0} : \E n \in {IF ill THEN dim[s] + 1 ELSE dim[s]} : \E c \in {CgFor(s, n)} :
              Emit([D0 EXCEPT !.op = cur, !.dst = s, !.n = n, !.mod = ModOf(c.k), !.v = c.v]) /\ Keep
